@@ -15,6 +15,7 @@ import (
 	"github.com/pion/stun/v3"
 	"github.com/pion/turn/v5/internal/ipnet"
 	"github.com/pion/turn/v5/internal/proto"
+	"github.com/pion/turn/v5/internal/verifhook"
 )
 
 type allocationResponse struct {
@@ -97,11 +98,13 @@ func (a *Allocation) AddPermission(perms *Permission) {
 	a.permissionsLock.RUnlock()
 
 	if ok {
+		verifhook.At("perm.add.refresh", a)
 		existedPermission.refresh(perms.timeout)
 
 		return
 	}
 
+	verifhook.At("perm.add.insert", a)
 	perms.allocation = a
 	a.permissionsLock.Lock()
 	a.permissions[fingerprint] = perms
@@ -158,6 +161,7 @@ func (a *Allocation) ListPermissions() []*Permission {
 func (a *Allocation) AddChannelBind(chanBind *ChannelBind, channelLifetime, permissionLifetime time.Duration) error {
 	// Check that this channel id isn't bound to another transport address, and
 	// that this transport address isn't bound to another channel number.
+	verifhook.At("chan.add.lookup", a)
 	channelByNumber := a.GetChannelByNumber(chanBind.Number)
 	channelByAddr := a.GetChannelByAddr(chanBind.Peer)
 
@@ -172,6 +176,7 @@ func (a *Allocation) AddChannelBind(chanBind *ChannelBind, channelLifetime, perm
 	}
 
 	// Add or refresh this channel.
+	verifhook.At("chan.add.apply", a)
 	if channelByNumber == nil {
 		a.channelBindingsLock.Lock()
 		defer a.channelBindingsLock.Unlock()
@@ -400,6 +405,7 @@ func (a *Allocation) packetConnHandler(manager *Manager) {
 			continue
 		}
 
+		verifhook.At("relay.read", a)
 		a.log.Debugf("Relay socket %s received %d bytes from %s",
 			a.relayPacketConn.LocalAddr(),
 			n,
